@@ -440,12 +440,27 @@ func (s *programState) sendAllToAccount(accountLiteral parser.ValueExpr, ovedraf
 		}
 	}
 
-	balance := s.getCachedBalance(*account, s.CurrentAsset)
-
-	// we sent balance+overdraft
-	sentAmt := new(big.Int).Add(balance, ovedraft)
+	// we sent balance+overdraft (never a negative amount)
+	sentAmt := s.availableFunds(*account, ovedraft)
 	s.pushSender(*account, sentAmt)
 	return sentAmt, nil
+}
+
+// The amount an account can still give in the current statement:
+// its balance, minus what the statement has already pulled from it,
+// plus the granted overdraft (never below zero)
+func (s *programState) availableFunds(account string, overdraft *big.Int) *big.Int {
+	available := new(big.Int).Set(s.getCachedBalance(account, s.CurrentAsset))
+	for _, sender := range s.Senders {
+		if sender.Name == account {
+			available.Sub(available, sender.Monetary)
+		}
+	}
+	available.Add(available, overdraft)
+	if available.Sign() == -1 {
+		available.SetInt64(0)
+	}
+	return available
 }
 
 // Send as much as possible (and return the sent amt)
@@ -527,10 +542,8 @@ func (s *programState) trySendingToAccount(accountLiteral parser.ValueExpr, amou
 		// unbounded overdraft: we send the required amount
 		actuallySentAmt = new(big.Int).Set(amount)
 	} else {
-		balance := s.getCachedBalance(*account, s.CurrentAsset)
-
 		// that's the amount we are allowed to send (balance + overdraft)
-		safeSendAmt := new(big.Int).Add(balance, overdraft)
+		safeSendAmt := s.availableFunds(*account, overdraft)
 		actuallySentAmt = utils.MinBigInt(safeSendAmt, amount)
 	}
 
